@@ -544,6 +544,22 @@ pub fn run(args: &Args) -> Report {
             let mut chosen: Vec<usize> = vec![];
             if thorough {
                 chosen = (0..names.len()).collect();
+                // (every hit is a trial; the counter only records that such calls exist)
+                let mut seg_start = 0usize;
+                let mut per: BTreeMap<&str, usize> = BTreeMap::new();
+                for (i, n) in names.iter().enumerate() {
+                    if i > seg_start && (n == "store.begin" || n == "vanish.begin" || n == "remove_event.begin" || n == "new.begin") {
+                        seg_start = i;
+                        if per.values().any(|c| *c >= 8) {
+                            rep.count("calls_passing_one_point_many_times");
+                        }
+                        per.clear();
+                    }
+                    *per.entry(n.as_str()).or_default() += 1;
+                }
+                if per.values().any(|c| *c >= 8) {
+                    rep.count("calls_passing_one_point_many_times");
+                }
             } else {
                 let mut by_name: BTreeMap<&str, Vec<usize>> = BTreeMap::new();
                 for (i, n) in names.iter().enumerate() {
